@@ -18,9 +18,10 @@ def showLead (l : Lead) : String :=
 
 def showQ (nm : String) (q : Q) : String :=
   s!"{nm}:{q.numLead},{q.numReqs},{q.maxId}[" ++ " ".intercalate (q.lead.map showLead) ++ "]{" ++
-    " ".intercalate (q.nonlead.map (fun r => toString r.leadOff)) ++ "}"
+    " ".intercalate (q.nonlead.map (fun r => s!"{r.leadOff}:{r.s.nelems}:{r.s.xoff}")) ++ "}"
 
-def dump (nc : NC) : String := " | " ++ showQ "P" nc.put ++ " " ++ showQ "G" nc.get
+def dump (nc : NC) (single : Bool := true) : String :=
+  " | " ++ showQ "P" nc.put ++ " " ++ showQ "G" nc.get ++ (if single then s!" R:{nc.numrecs}" else " R:*")
 
 def showInts (l : List Int) : String := if l.isEmpty then "-" else ",".intercalate (l.map toString)
 
@@ -37,6 +38,9 @@ structure St where
   nc : NC := {}
   hs : Array H := Array.replicate 128 {}
   dead : Bool := false
+  single : Bool := true
+
+def St.dump (st : St) (nc : NC) : String := C02Drv.dump nc st.single
 
 def tokId (st : St) (t : String) : Int :=
   if t.startsWith "N" then -1
@@ -46,6 +50,26 @@ def tokId (st : St) (t : String) : Int :=
        | none => -1
 
 def isRec (v : Nat) : Bool := v == 2 || v == 3
+def xszOf (v : Nat) : Int := [4, 2, 8, 4, 1, 4, 4, 4].getD v 1
+def ndOf (v : Nat) : Nat := [2, 1, 2, 3, 1, 2, 0, 1].getD v 0
+
+/-- the non-lead requests of one post, from the start/count tokens of the script line -/
+def subsOf (h v : Nat) (api : String) (nr : Nat) (nums : List Int) : List Sub :=
+  let nd := ndOf v
+  let xsz := xszOf v
+  if api == "n" then
+    ((List.range nr).foldl (fun (acc : List Sub × Int) i =>
+      let ct := (nums.drop (i * 2 * nd + nd)).take nd
+      let ne := ct.foldl (· * ·) 1
+      if ne == 0 then acc
+      else
+        let c0 := if isRec v then (ct.getD 0 1).toNat else 1
+        (acc.1 ++ splitVarn h ne acc.2 xsz c0, acc.2 + ne * xsz)) ([], 0)).1
+  else
+    let ct := (nums.drop nd).take nd
+    let ne := ct.foldl (· * ·) 1
+    let c0 := if isRec v then (ct.getD 0 1).toNat else 1
+    splitVarm h ne xsz c0
 
 /-- apply the NC_ERANGE of the completed reads that convert out-of-range data -/
 def applyErange (st : St) (done : List Lead) (sts : Option (List Int)) (err : Int) : Option (List Int) × Int :=
@@ -68,10 +92,10 @@ def doWait (st : St) (num : Int) (ids : List Int) (hasst : Bool) : St × WaitRes
   -- `state` is the SPEC's notion (exp lists of the script), exactly as in the C harness
   ({ st with nc := r.nc }, r, s2, e2)
 
-def fmtRes (tag : String) (err : Int) (num : Int) (ids : List Int) (sts : Option (List Int)) (nc : NC) : String :=
+def fmtRes (st : St) (tag : String) (err : Int) (num : Int) (ids : List Int) (sts : Option (List Int)) (nc : NC) : String :=
   let arr := if num ≥ 0 then ids else []
   let s := match sts with | some s => (if num ≥ 0 then showInts s else "-") | none => "-"
-  s!"{tag} err={err} ids={showInts arr} st={s} n={nreqs nc}" ++ dump nc
+  s!"{tag} err={err} ids={showInts arr} st={s} n={nreqs nc}" ++ st.dump nc
 
 def step (st : St) (rank : Nat) (line : String) : St × List String :=
   let toks := (line.trimAscii.toString.splitOn " ").filter (· ≠ "")
@@ -79,8 +103,8 @@ def step (st : St) (rank : Nat) (line : String) : St × List String :=
   | "L" :: _n :: rest =>
     let vals := rest.map (fun s => s.toInt?.getD 0)
     ({ st with begins := vals.take 8, recsize := vals.getD 8 0 }, [])
-  | "CASE" :: idx :: _ =>
-    ({ st with nc := {}, hs := Array.replicate 128 {}, dead := false },
+  | "CASE" :: idx :: nranks :: _ =>
+    ({ st with nc := { numrecs := 3 }, hs := Array.replicate 128 {}, dead := false, single := nranks == "1" },
      [s!"CASE {idx} layout " ++ " ".intercalate (st.begins.map toString) ++ s!" {st.recsize}"])
   | op :: r :: rest =>
     if r.toNat? != some rank then (st, []) else
@@ -90,32 +114,25 @@ def step (st : St) (rank : Nat) (line : String) : St × List String :=
     else if st.dead then (st, ["DEAD"])
     else if op == "P" then
       match rest with
-      | h :: kind :: var :: api :: zero :: _nsubs :: start0 :: erange :: _mt :: _bl :: _imap :: nreq :: more =>
+      | h :: kind :: var :: api :: zero :: _nsubs :: start0 :: erange :: maxrec :: _mt :: _bl :: _imap :: nreq :: more =>
         let h := h.toNat?.getD 0
         let v := var.toNat?.getD 0
         let z := zero.toNat?.getD 0
-        if z == 1 then (st, [s!"P h{h} err=0 id=-1" ++ dump st.nc])
-        else if z == 2 then (st, [s!"P h{h} err=* id=-1" ++ dump st.nc])
+        if z == 1 then (st, [s!"P h{h} err=0 id=-1" ++ st.dump st.nc])
+        else if z == 2 then (st, [s!"P h{h} err=* id=-1" ++ st.dump st.nc])
         else
           let begin := st.begins.getD v 0
-          let nd := [2, 1, 2, 3, 1, 2, 0, 1].getD v 0
-          -- number of non-lead requests: one per record of every non-empty sub-request
           let nums := more.map (fun s => s.toInt?.getD 0)
-          let nr := nreq.toNat?.getD 1
-          let subs := (List.range nr).map (fun i =>
-            let ct := (nums.drop (i * 2 * nd + nd)).take nd
-            let ne := ct.foldl (· * ·) 1
-            if ne == 0 then 0 else if isRec v then (ct.getD 0 1).toNat else 1)
-          let nsub := subs.foldl (· + ·) 0
+          let subs := subsOf h v api (nreq.toNat?.getD 1) nums
           let isPut := kind != "get"
           let s0 := start0.toInt?.getD 0
           let reqOff := if isPut then begin + (if isRec v then st.recsize * s0 else 0) else begin
           let sorted := isPut || api == "n"
           let q := if isPut then st.nc.put else st.nc.get
-          let (q', id) := q.post (if isPut then 0 else 1) sorted begin reqOff (-1) h (List.replicate nsub h)
+          let (q', id) := q.post (if isPut then 0 else 1) sorted begin reqOff (-1) h subs (maxrec.toInt?.getD (-1))
           let nc' := if isPut then { st.nc with put := q' } else { st.nc with get := q' }
           let st' := { st with nc := nc', hs := st.hs.modify h (fun _ => { id := id, erange := erange == "1", posted := true }) }
-          (st', [s!"P h{h} err=0 id={id}" ++ dump nc'])
+          (st', [s!"P h{h} err=0 id={id}" ++ st.dump nc'])
       | _ => (st, ["bad-P"])
     else if op == "W" then
       match rest with
@@ -125,7 +142,7 @@ def step (st : St) (rank : Nat) (line : String) : St × List String :=
         let tks := more.take nt
         let ids := tks.map (tokId st)
         let (st1, r, s2, e2) := doWait st num ids (hasst == "1")
-        let l1 := fmtRes "W" e2 num r.ids s2 st1.nc
+        let l1 := fmtRes st "W" e2 num r.ids s2 st1.nc
         if r.err == NC_EINVAL_REQUEST then
           -- probes, then cancel everything, case is dead
           let hsNamed := (tks.filter (·.startsWith "h")).map (fun t => (t.drop 1).toString.toNat?.getD 0)
@@ -138,10 +155,10 @@ def step (st : St) (rank : Nat) (line : String) : St × List String :=
             let idn := r'.ids.headD 0
             let stn := (sx.getD []).headD 0
             let s' := if ex != NC_EINVAL_REQUEST && idn == -1 then markSpecDone s' [h] else s'
-            (s', ls ++ [s!"R h{h} err={ex} ids={idn} st={stn} n={nreqs s'.nc}" ++ dump s'.nc], h :: seen)) (st1, [], [])
+            (s', ls ++ [s!"R h{h} err={ex} ids={idn} st={stn} n={nreqs s'.nc}" ++ s'.dump s'.nc], h :: seen)) (st1, [], [])
           let c := cancel st2.nc (-1) [] none
           let st3 := { st2 with nc := c.nc, dead := true }
-          (st3, [l1] ++ lines ++ [s!"K err={c.err} n={nreqs c.nc}" ++ dump c.nc])
+          (st3, [l1] ++ lines ++ [s!"K err={c.err} n={nreqs c.nc}" ++ st3.dump c.nc])
         else
           let rest2 := more.drop nt
           let nexp := (rest2.headD "0").toNat?.getD 0
@@ -157,7 +174,7 @@ def step (st : St) (rank : Nat) (line : String) : St × List String :=
         let sts := if hasst == "1" then some (ids.map (fun _ => (777 : Int))) else none
         let c := cancel st.nc num ids sts
         let st' := { st with nc := c.nc }
-        (st', [fmtRes "X" c.err num c.ids c.st c.nc])
+        (st', [fmtRes st "X" c.err num c.ids c.st c.nc])
       | _ => (st, ["bad-X"])
     else (st, [])
   | _ => (st, [])
